@@ -402,6 +402,7 @@ func c05ActionMap(p *Prog, r *Report, rr *reqRoles) {
 	}
 	// the increment really is +1 on the stored count
 	incOK := 0
+	var stray []string
 	var reqMethods []*ssa.Function
 	reqMethods = append(reqMethods, p.methodsOf(rr.req)...)
 	for _, m := range reqMethods {
@@ -412,6 +413,9 @@ func c05ActionMap(p *Prog, r *Report, rr *reqRoles) {
 					if c, ok := constInt(bo.Y); ok && c == 1 {
 						if f, _ := loadedField(bo.X); f == rr.retryCountF {
 							incOK++
+							if m != rr.handleErr && !onlyCalledFrom(p, m, rr.handleErr, 3) {
+								stray = append(stray, fmt.Sprintf("%s: retry count incremented in %s, outside the error-result handler: an event that is not a policy decision (connection loss, re-prepare) uses up the retries the policy grants for a later error", p.Pos(st.Pos()), m.Name()))
+							}
 							return
 						}
 					}
@@ -422,6 +426,7 @@ func c05ActionMap(p *Prog, r *Report, rr *reqRoles) {
 		})
 	}
 	r.check(incOK >= 2, rule, "retry-count-increment", p.Pos(rr.handleErr.Pos()), "retryCount = retryCount + 1", "retry count is not incremented by one at each retry")
+	r.check(len(stray) == 0, rule, "retry-count-writers", p.Pos(rr.handleErr.Pos()), "the retry count is only advanced by policy decisions in the error-result handler", strings.Join(dedupe(stray), " || "))
 }
 
 func c05Progress(p *Prog, r *Report, rr *reqRoles) {
